@@ -23,15 +23,20 @@ MANIFEST = {
              'split of the start block (C03_roll_refines), constructor coherence (C03_frame_coherent, C03_frame_rejects), agreement of the read routes '
              '(C03_readers_agree, C03_to_pairs_refines); fillna/dropna under the guards that make their per-block decisions unobservable; '
              'the get_block_match stack of clip / assign-by-blocks hands out exactly the next w source columns (C03_take_cols_spec, C03_take_many_spec) and '
-             'clip with Frame bounds equals the column-by-column clip for every (receiver layout, bound layouts) pair (C03_clip_refines, C03_clip_layout_independent). '
+             'clip with Frame bounds equals the column-by-column clip for every (receiver layout, bound layouts) pair (C03_clip_refines, C03_clip_layout_independent); '
+             'a 1-D operand chopped per block equals the per-column pairing (C03_binop_row_refines). '
              'Correspondence through the public interface: EVERY block layout of the enumerated column-dtype sequences (<= 4 columns quick, <= 5 thorough), '
              '0-row and 0-column frames included; ~440-570 single-frame public operations per frame compared layout-vs-canonical-layout (labels, '
              'per-column values, per-column dtypes, error class); read routes values/iloc/loc/iter_element/iter_array/iter_series/to_pairs against the '
              'columns the frame was built from; result BLOCKS of the modelled operations against M (exact output layout) and result columns against S.'),
     'note': ('trusted: Coq kernel, py2v translator (resolve_dtype, _cols_to_slice), the np.result_type oracle of SF/Dtype.v, the cell-level NumPy '
              'parameters of the models (cell functions, cast, roll of one column), harness. Partial: operations without a block-level model '
-             '(assign, drop, mask, sort, reindex, reductions, binary operators between frames, ...) are covered by the layout-vs-layout comparison only; '
-             '8 known finding classes (known/C03.jsonl) where the unchanged code IS layout/history dependent or fails on 0-sized frames; '
+             '(assign, drop, mask, sort, reindex/resize_blocks, group, reductions, binary operators between frames, matmul, directional and sided fills, '
+             'keyed astype, non-wrap shift, vstack/concat, from_overlay) are covered by the layout-vs-layout and receiver-x-argument-layout comparisons only; '
+             'M_clip assumes bound columns of the receiver dtype; complex columns have no Coq-side strata; branches of type_blocks.py no call reaches '
+             '(TypeBlocks.equals ValueError fallback and compare_class mismatch) are not exercised; display/mloc/shapes are block-structure observables by '
+             'definition and only sanity-checked; '
+             '9 known finding classes (known/C03.jsonl) where the unchanged code IS layout/history dependent or fails on 0-sized frames; '
              'Refuted/C03.v holds the model-level witnesses. Keys with repeated integers are outside (unobservable through Frame: labels are unique).'),
     'technique': 'refinement M_op(layout) = S_op(flatten layout) + exhaustive layout enumeration, metamorphic layout-vs-canonical comparison',
 }
@@ -81,6 +86,14 @@ def column(kind, j, n):
         return a
     if kind == 'M':
         return np.array([np.datetime64('2020-01-01') + (7 * j + i) for i in range(n)], dtype='datetime64[D]')
+    if kind == 'u':     # unsigned
+        return np.array([(40 * (j + 1) + 3 * i) % 250 for i in range(n)], dtype=np.uint8)
+    if kind == 'S':     # bytes
+        return np.array([('%s%d' % ('pqrs'[(j + i) % 4], i)).encode() for i in range(n)], dtype='S2')
+    if kind == 'm':     # timedelta64[s]
+        return np.array([np.timedelta64(60 * (j + 1) + i, 's') if i != (j % 3) else np.timedelta64('NaT') for i in range(n)], dtype='timedelta64[s]')
+    if kind == 'c':     # complex
+        return np.array([complex(j + 1, i) for i in range(n)], dtype=np.complex128)
     raise ValueError(kind)
 
 
@@ -107,6 +120,8 @@ def _scalar(v):
         return ('N',)
     if isinstance(v, (bool, np.bool_)):
         return ('b', bool(v))
+    if isinstance(v, (np.datetime64, np.timedelta64)):        # before the integer test: timedelta64 is a NumPy signed integer
+        return ('t', str(v.dtype), 'NaT' if np.isnat(v) else int(v.astype('int64')))
     if isinstance(v, (int, np.integer)):
         return ('i', int(v))
     if isinstance(v, (float, np.floating)):
@@ -321,6 +336,87 @@ def ops_for(kinds, n, full=True):
         add(f'op:f=={oname}', lambda f, g=g: f == g)
         add(f'op:f<{oname}', lambda f, g=g: f < g)
         add(f'equals:{oname}', lambda f, g=g: (f.equals(g), g.equals(f), f.equals(g, compare_dtype=True), f.to_frame_he() == g.to_frame_he()))
+    # ---- extension round: routes the coverage tool showed no case reached
+    numeric_only = all(k in 'ihgfbuc' for k in kinds)      # NumPy's object-dtype matmul over None / str cells crashes the interpreter (segfault): not run
+    add('op:via_T+series', lambda f: f.via_T + sf.Series(range(n), index=R))
+    add('op:via_T*array', lambda f: f.via_T * np.arange(n))
+    add('op:via_T==array', lambda f: f.via_T == np.arange(10, 10 + n))
+    if numeric_only: add('op:matmul-array', lambda f: f @ np.ones(m))
+    if numeric_only: add('op:matmul-T', lambda f: f @ f.T)
+    if numeric_only: add('op:rmatmul', lambda f: np.ones(n) @ f)
+    add('op:add-array-wrong', lambda f: f + np.arange(m + 1))
+    add('op:add-array2d-wrong', lambda f: f + np.ones((n + 1, m)))
+    add('op:series+f', lambda f: sf.Series(range(1, m + 1), index=L) + f)
+    for rname, rfn in (('rsub', lambda f: 100 - f), ('rmul', lambda f: 3 * f), ('rpow', lambda f: 2 ** f), ('rfloordiv', lambda f: 7 // f),
+                       ('rmod', lambda f: 7 % f), ('rtruediv', lambda f: 1 / f), ('rand', lambda f: True & f), ('ror', lambda f: False | f),
+                       ('xor', lambda f: f ^ True), ('rxor', lambda f: True ^ f), ('le', lambda f: f <= 12), ('gt', lambda f: f > 12),
+                       ('rstr', lambda f: 'z' + f), ('mulstr', lambda f: f * 'z')):
+        add('op:' + rname, rfn)
+    add('iloc[1:2]', lambda f: f.iloc[1:2])
+    add('iloc[1:2,1:]', lambda f: f.iloc[1:2, 1:])
+    add('iloc[one-row-mask]', lambda f: f.iloc[np.arange(n) == n - 1])
+    add('iloc[one-row-mask,::-1]', lambda f: f.iloc[np.arange(n) == 0, ::-1])
+    add('iloc[[1]]', lambda f: f.iloc[[1]])
+    add('loc[one-row-mask-series]', lambda f: f.loc[sf.Series(np.arange(n) == 0, index=R)])
+    if m >= 2:
+        add('iter_group[list]', lambda f: tuple(f.iter_group_items(['a', 'b'])))
+        add('iter_group_array[list]', lambda f: tuple(f.iter_group_array_items(['a', 'b'])) if hasattr(f, 'iter_group_array_items') else None)
+    if n:
+        add('iter_group-axis1', lambda f: tuple(f.iter_group_items(R[0], axis=1)))
+        add('iter_group-axis1[list]', lambda f: tuple(f.iter_group_items(list(R[:2]), axis=1)))
+    add('iter_group_labels', lambda f: tuple(f.iter_group_labels_items(0)))
+    add('reindex-none-common', lambda f: f.reindex(index=('zz', 'yy'), columns=('q1', 'q2'), fill_value=0))
+    add('reindex-rows-none-common', lambda f: f.reindex(index=('zz', 'yy'), fill_value=0))
+    add('reindex-cols-none-common', lambda f: f.reindex(columns=('q1', 'q2'), fill_value='w'))
+    add('reindex-both-partial', lambda f: f.reindex(index=R[::-1][:1] + ('zz',), columns=L[::-1][:1] + ('zz',) + L[:1], fill_value=None))
+    add('reindex-subset-both', lambda f: f.reindex(index=R[::-1][:2], columns=L[::-1][:2]))
+    add('reindex-cols-subset', lambda f: f.reindex(columns=L[::-1][:1]))
+    add('reindex-rows-subset', lambda f: f.reindex(index=R[::-1][:2]))
+    add('relabel_shift_out-axis1', lambda f: f.relabel_shift_out(0, axis=1))
+    add('relabel_shift_in-axis1', lambda f: f.relabel_shift_in(R[0], axis=1))
+    add('relabel_shift_in-list', lambda f: f.relabel_shift_in(list(L[:2]), axis=0))
+    add('from_concat-other-dtypes', lambda f: sf.Frame.from_concat((f, f.astype['a'](float).relabel(index=lambda x: x + '2'))))
+    add('from_concat-three', lambda f: sf.Frame.from_concat((f, f.relabel(index=lambda x: x + '2'), f.astype(object).relabel(index=lambda x: x + '3'))))
+    add('from_concat-axis1-three', lambda f: sf.Frame.from_concat((f, f.relabel(columns=lambda x: x + '2'), f.iloc[:, :1].relabel(columns=('w',))), axis=1))
+    add('from_overlay', lambda f: sf.Frame.from_overlay((f, f.fillna(0).relabel(columns=lambda x: x))))
+    add('from_element_items', lambda f: sf.Frame.from_element_items(f.iter_element_items(), index=f.index, columns=f.columns, dtype=object))
+    add('iter_element.apply-id', lambda f: f.iter_element().apply(lambda x: x))
+    add('iter_element.map_any', lambda f: f.iter_element().map_any({11: -11, 'x0': 'X'}))
+    add('assign.bloc(series)', lambda f: f.assign.bloc[f.notna()](sf.Series([5] * (n * m), index=[(r, c) for r in R for c in L])) if n * m else f)
+    add('tb.clip-array', lambda f: f._blocks.clip(np.full((n, m), 12), None))
+    add('tb.clip-array-both', lambda f: f._blocks.clip(np.full((n, m), 12), np.full((n, m), 21)))
+    add('tb.shapes-total', lambda f: (sum(sh[1] if len(sh) == 2 else 1 for sh in f._blocks.shapes), len(f._blocks.mloc) == len(f._blocks._blocks)))
+    add('tb.display', lambda f: len(str(f._blocks.display())) > 0)
+    add('equals-variants', lambda f: (f.equals(3), f.equals(f.iloc[:, :-1]), f.equals(f.astype(object), compare_dtype=True), f.equals(f.astype(object)),
+                                      f.equals(f.to_frame_go(), compare_class=True), f.equals(f.rename('x'), compare_name=True),
+                                      f._blocks.equals(f._blocks), f._blocks.equals(f.values), f.equals(f.fillna(0), skipna=False), f.equals(f, skipna=False)))
+    add('iloc[list-of-bools rows]', lambda f: f.iloc[[i == 0 for i in range(n)]])
+    add('iloc[:,list-of-bools]', lambda f: f.iloc[:, [j % 2 == 0 for j in range(m)]])
+    add('iloc[list-of-bools both]', lambda f: f.iloc[[i != 1 for i in range(n)], [j != 0 for j in range(m)]])
+    add('tb.extract-bad-key', lambda f: f._blocks._extract(None, 'a'))
+    if numeric_only: add('tb.matmul', lambda f: f._blocks @ np.ones(m))
+    add('tb.op-other-shape', lambda f: f._blocks + f.iloc[:, :-1]._blocks)
+    add('tb.op-list', lambda f: f._blocks * list(range(1, m + 1)))
+    add('tb.op-list-axis1', lambda f: f._blocks._ufunc_binary_operator(operator=__import__('operator').add, other=list(range(n)), axis=1))
+    add('tb.equals-variants', lambda f: (f._blocks.equals(f._blocks.copy(), compare_class=True), f._blocks.equals(f.iloc[:, :-1]._blocks),
+                                         f._blocks.equals(f.iloc[1:]._blocks), f._blocks.equals(f.astype(object)._blocks, compare_dtype=True),
+                                         f._blocks.equals(f._blocks.consolidate()) if m else None, f._blocks.equals(f)))
+    add('assign.bloc(array)', lambda f: f.assign.bloc[f.notna()](np.arange(n * m).reshape(n, m)))
+    add('assign.bloc(array-float)', lambda f: f.assign.bloc[f.isna()](np.full((n, m), 0.5)))
+    for name in ('sum', 'prod', 'min', 'max', 'mean', 'all', 'any'):
+        add(f'{name}1-noskipna', lambda f, name=name: getattr(f, name)(axis=1, skipna=False))
+    if numeric_only: add('op:matmul-series', lambda f: f @ sf.Series(range(1, m + 1), index=L))
+    if numeric_only: add('op:matmul-2d', lambda f: f @ np.ones((m, 2)))
+    if numeric_only: add('op:T-matmul-f', lambda f: f.T @ f)
+    if numeric_only: add('op:series-rmatmul', lambda f: sf.Series(range(1, n + 1), index=R) @ f)
+    if numeric_only: add('op:array2d-rmatmul', lambda f: np.ones((2, n)) @ f)
+    if numeric_only: add('op:matmul-wrong', lambda f: f @ np.ones(m + 1))
+    add('bloc[array]', lambda f: f.bloc[f.notna().values])
+    add('bloc[frame-other-labels]', lambda f: f.bloc[f.notna().reindex(index=R[::-1], columns=L[::-1] + ('zz',), fill_value=False)])
+    add('tb.ufunc_blocks[list]', lambda f: TypeBlocks_from(f._blocks._ufunc_blocks(column_key=sorted({0, m - 1}), func=lambda a: a.astype(object)), f))
+    add('tb.ufunc_blocks[slice]', lambda f: TypeBlocks_from(f._blocks._ufunc_blocks(column_key=slice(1, None, 2), func=lambda a: a.astype(object)), f))
+    add('tb.assign_by_blocks[int]', lambda f: f._blocks.extract_iloc_assign_by_blocks((None, m - 1), [np.full(n, 9)]))
+    add('tb.assign_by_blocks[rows,int]', lambda f: f._blocks.extract_iloc_assign_by_blocks((slice(1, None), 0), [np.full(max(n - 1, 0), 9)]))
     add('op:self+self', lambda f: f + f)
     add('op:self==self', lambda f: f == f)
     add('op:self-T', lambda f: f - f.T)
@@ -478,6 +574,11 @@ def ops_for(kinds, n, full=True):
     return out
 
 
+def TypeBlocks_from(blocks, f):
+    from static_frame.core.type_blocks import TypeBlocks
+    return TypeBlocks.from_blocks(blocks, shape_reference=f._blocks._shape)
+
+
 def _pandas(f):
     df = f.to_pandas()
     return (tuple(df.index), tuple(df.columns), tuple(str(d) for d in df.dtypes), tuple(tuple(_scalar_py(x) for x in df[c].tolist()) for c in df.columns))
@@ -512,7 +613,7 @@ def _go_extend(f):
 # ----------------------------------------------------------------------------- known finding classes (by construction of the input)
 NUMERIC_KINDS = frozenset('igf')          # int64 / float64: the only dtypes whose axis-0 reductions are layout independent
 REDUCTIONS = ('sum', 'prod', 'min', 'max', 'mean', 'median', 'std', 'var', 'all', 'any', 'cumsum', 'cumprod')
-STRING_RESULT_OPS = frozenset(('op:mul-series', 'op:mul-array2d', 'op:mul2', 'op:addstr', 'astype(str)', 'astype[list](str)', 'via_str.upper'))
+STRING_RESULT_OPS = frozenset(('tb.op-list', 'op:mul-series', 'op:mul-array2d', 'op:mul2', 'op:addstr', 'astype(str)', 'astype[list](str)', 'via_str.upper'))
 FILL_OPS = frozenset(('fillna(str)', 'assign.bloc(frame)', 'fillna(L)', 'assign.bloc(L)'))
 
 
@@ -554,7 +655,11 @@ def finding_for(name, kinds, n, layout):
     if (name.startswith(('fillna_leading', 'fillna_trailing', 'fillna(fill)', 'assign.bloc-isna')) and multi
             and 'M' in kinds and set(kinds) != {'M'}):
         return 'C03-fill-block-dtype'          # missing_ops fills -1 there: it cannot fit a datetime64 block
-    if (name in STRING_RESULT_OPS or (name.startswith('astype') and name.endswith('(str)'))) and multi and any(k in 'UO' for k in kinds):
+    if name.startswith('from_overlay') and n == 0:
+        return 'C03-reduce-axis0-blockwise'        # from_overlay reduces with any(): the 0-row unified path returns a Python bool
+    if (name.startswith(('fillna(0)', 'fillna_leading', 'fillna_trailing', 'assign.bloc(0)', 'assign.bloc(series)', 'assign.bloc(array')) and multi and 'm' in kinds):
+        return 'C03-fill-block-dtype'              # an integer does not fit a timedelta64 block
+    if (name in STRING_RESULT_OPS or (name.startswith('astype') and name.endswith('(str)'))) and multi and any(k in 'UOS' for k in kinds):
         return 'C03-str-itemsize'
     if fam in CELLWISE_RAISING and _has_multi_object_block(kinds, layout):
         return 'C03-object-block-error-order'
@@ -605,7 +710,7 @@ def short(o, limit=160):
 QUICK_KINDS = ['', 'i', 'f', 'U', 'O', 'b', 'ii', 'if', 'fO', 'UU', 'iii', 'iif', 'UUf', 'bbO', 'iiff', 'iUUi']
 THOROUGH_FRAMES = (
     [(k, (0, 1, 2, 3, 4)) for k in ['', 'i', 'f', 'U', 'O', 'b', 'M', 'h']]
-    + [(k, (0, 1, 3)) for k in ['ii', 'if', 'fO', 'UU', 'bb', 'OO', 'gg', 'hi']] + [('OM', (2,)), ('fgb', (2,)), ('fOO', (2,)), ('gggi', (1, 3)), ('iiif', (1, 3)), ('OOOi', (2,)), ('gggii', (2,))]
+    + [(k, (0, 1, 3)) for k in ['ii', 'if', 'fO', 'UU', 'bb', 'OO', 'gg', 'hi']] + [('OM', (2,)), ('fgb', (2,)), ('fOO', (2,)), ('gggi', (1, 3)), ('iiif', (1, 3)), ('OOOi', (2,)), ('gggii', (2,)), ('uu', (1, 3)), ('SS', (1, 3)), ('mm', (1, 3)), ('ucu', (2,)), ('uuS', (3,)), ('mMm', (3,)), ('cc', (3,))]
     + [(k, (1, 3)) for k in ['iii', 'iif', 'fii', 'UUf', 'bbO', 'hhi', 'MMi', 'ggi', 'bib']]
     + [('iiii', (0, 1, 3))] + [(k, (1, 3)) for k in ['iiff', 'iUUi', 'OOii']] + [(k, (3,)) for k in ['ifif', 'ffff', 'fiib', 'hhgg']]
     + [('iiiii', (3,)), ('iifff', (3,)), ('ifbUO', (1,))])
@@ -613,9 +718,10 @@ MODEL_KINDS = frozenset('ihgfbU')        # cells / conversions the Coq cell func
 ALL_KINDS = 'ihgfbUOM'
 
 
-QUICK_FRAMES = [('', (0, 1, 3)), ('i', (0, 1, 3)), ('f', (0, 1, 3)), ('U', (0, 2)), ('O', (1, 3)), ('ii', (0, 1, 3)), ('if', (0, 1, 3)),
-                ('UU', (1, 3)), ('fO', (0, 2)), ('iii', (1, 3)), ('iif', (0, 2)), ('bbO', (1, 3)), ('iiff', (1, 3)), ('iUUi', (0, 2)),
-                ('hi', (2,)), ('OM', (2,)), ('fgb', (2,)), ('fOO', (2,)), ('gggi', (2,)), ('iiif', (2,)), ('iiii', (3,))]
+QUICK_FRAMES = [('', (0, 1, 3)), ('i', (0, 1, 3)), ('f', (0, 1, 3)), ('U', (0, 2)), ('O', (1, 3)), ('ii', (0, 1, 3)), ('if', (0, 3)),
+                ('UU', (3,)), ('fO', (2,)), ('iii', (3,)), ('iif', (2,)), ('bbO', (3,)), ('iiff', (3,)), ('iUUi', (2,)),
+                ('hi', (2,)), ('OM', (2,)), ('fgb', (2,)), ('fOO', (2,)), ('gggi', (2,)), ('iiif', (2,)), ('uu', (3,)), ('SS', (3,)), ('mm', (3,)),
+                ('ucu', (2,)), ('bb', (1, 3)), ('iiii', (3,))]
 
 
 def frame_space(ctx):
@@ -920,6 +1026,14 @@ def pair_ops(kinds, n):
         ('assign.iloc[:,::2](U)', lambda f, L, U, G: f.assign.iloc[:, ::2](U.iloc[:, ::2])),
         ('assign.bloc(L)', lambda f, L, U, G: f.assign.bloc[checker](L)),
         ('equals(G)', lambda f, L, U, G: (f.equals(G), G.equals(f))),
+        ('assign.iloc[1:,1:3](L)', lambda f, L, U, G: f.assign.iloc[1:, 1:3](L.iloc[1:, 1:3])),
+        ('assign.iloc[[0],[-1,0]](U)', lambda f, L, U, G: f.assign.iloc[[0], [m - 1, 0]](U.iloc[[0], [m - 1, 0]])),
+        ('assign.loc[mask,b:](L)', lambda f, L, U, G: f.assign.loc[f.index.values != 'p', 'b':](L.loc[L.index.values != 'p', 'b':])),
+        ('from_overlay(f,L)', lambda f, L, U, G: sf.Frame.from_overlay((f, L))),
+        ('assign.iloc[:,1](L col)', lambda f, L, U, G: f.assign.iloc[:, 1](L.iloc[:, [1]])),
+        ('assign.iloc[1:,-1](U col)', lambda f, L, U, G: f.assign.iloc[1:, m - 1](U.iloc[1:, [m - 1]])),
+        ('assign.iloc[:,[1]](L)', lambda f, L, U, G: f.assign.iloc[:, [1]](L.iloc[:, [1]])),
+        ('from_concat(f,L,U)', lambda f, L, U, G: sf.Frame.from_concat((f, L.relabel(index=lambda x: x + '2'), U.astype(object).relabel(index=lambda x: x + '3')))),
         ('from_concat(f,L)', lambda f, L, U, G: sf.Frame.from_concat((f, L.relabel(index=lambda x: x + '2')))),
         ('insert_after(L)', lambda f, L, U, G: f.insert_after('a', L.relabel(columns=lambda x: x + '2'))),
     ]
@@ -946,6 +1060,8 @@ def pair_cases(ctx, kinds, n):
     lays = layouts(kinds, n)
     canon = canonical_layout(m)
     ops = pair_ops(kinds, n)
+    if ctx.tier == 'quick' and len(lays) > 20:          # the 1155 pairs of 'iiii': the stack-matching operations only
+        ops = [(name, fn) for name, fn in ops if name.startswith(('clip', 'assign', 'fillna', 'from_overlay'))]
     fc = build(kinds, n, canon)
     ac = pair_args(kinds, n, canon)
     ref = {}
@@ -956,7 +1072,7 @@ def pair_cases(ctx, kinds, n):
             ref[name] = ('X', lit.err_class(e))
     pairs = [(a, b_) for a in lays for b_ in lays if not (a == canon and b_ == canon)]
     clip_model = all(k in 'ihg' for k in kinds)       # numeric cells without missing values: what v_clip covers
-    C = cols_lit(columns_for(kinds, n))
+    C = cols_lit(columns_for(kinds, n)) if clip_model else None
     limit = None
     if ctx.tier == 'quick':
         limit = None if (kinds in ('iii', 'iiii') or len(lays) <= 5) else ctx.n(40, 40)
@@ -1200,6 +1316,20 @@ def model_cases(ctx, kinds, n):
                        s=f'res_eqb columns_eqb (S_transpose_v {C} {n}%nat) {o_cols}',
                        tags=tags, nontrivial=not zero, key=f'M|T|{kinds}|{n}|{ls}')
 
+        # ---- 1-D int64 operand along the rows (chopped by _block_shape_slices), int64 / float64 blocks without missing cells
+        if m and all(k in 'ig' for k in kinds):
+            import operator as _op
+            for oname, other in (('len=m', list(range(1, m + 1))), ('len=m+1', list(range(m + 1))), ('len=m rev', list(range(m, 0, -1)))):
+                if m == 1 and oname != 'len=m+1':
+                    continue            # a one-element array is the scalar route
+                ctx.count('model:binop_row')
+                o_tb, r = res_lit(lambda: f._blocks._ufunc_binary_operator(operator=_op.add, other=np.array(other, dtype=np.int64)), lambda t: tb_lit(t._blocks))
+                o_cols = o_tb if isinstance(r, Exception) else f'(Ok {cols_lit([r._extract_array(None, j) for j in range(r.shape[1])])})'
+                O = lit.lst([lit.z(x) for x in other])
+                yield Case('model:binop_row', dict(base, replay=mk(f'f._blocks._ufunc_binary_operator(operator=operator.add, other=np.array({other}))'), other=oname),
+                           m=f'res_eqb tb_eqb (M_binop_row_v {T} {O}) {o_tb}', s=f'res_eqb columns_eqb (S_binop_row_v {C} {O}) {o_cols}',
+                           tags={'stratum': 'model', 'op': 'binop_row'}, nontrivial=len(lay) > 1, key=f'M|binop|{kinds}|{n}|{ls}|{oname}')
+
         # ---- roll (wrap) over rows and columns
         shifts = [(0, 1), (0, -1), (1, 0), (2, 1), (-1, 2), (0, m), (1, m + 1), (n, -m - 1), (0, 2), (-2, -2)]
         for rs, cs in shifts:
@@ -1376,6 +1506,34 @@ def malformed_cases(ctx):
                    {'replay': f'sf.Frame(TypeBlocks.from_blocks(layout {zoo.layout_str(lay)} of {kinds!r} x {n} rows), index=range({n + di}), columns=range({m + dc}))', 'observed': txt},
                    m=f'res_eqb (fun _ _ => true) (res_map (fun _ => tt) (mk_frame_checked (L:=unit) {idx} {cl} {T} {n})) {txt}',
                    py_fail=bad, tags={'stratum': 'malformed'}, key=f'X|{kinds}|{n}|{zoo.layout_str(lay)}|{di}|{dc}')
+    # zero-size construction routes (from_zero_size_shape): the frame must be coherent and keep its labels
+    for zname, make, want in (('Frame(columns)', lambda: sf.Frame(columns=('a', 'b')), (0, 2)), ('Frame(index)', lambda: sf.Frame(index=('p', 'q')), (2, 0)),
+                              ('Frame()', lambda: sf.Frame(), (0, 0)), ('FrameGO(index)', lambda: sf.FrameGO(index=('p', 'q')), (2, 0)),
+                              ('from_zero_size_shape(0,3)', lambda: sf.Frame(TypeBlocks.from_zero_size_shape((0, 3))), (0, 3)),
+                              ('from_records-empty', lambda: sf.Frame.from_records((), columns=('a', 'b')), (0, 2)),
+                              ('Frame(empty-array)', lambda: sf.Frame(np.empty((0, 2)), columns=('a', 'b')), (0, 2))):
+        ctx.count('malformed')
+        try:
+            z = make()
+            ok = (z.shape == want == (len(z.index), len(z.columns)) == z._blocks.shape == z.values.shape
+                  and len(list(z.iter_array(axis=0))) == want[1] and len(list(z.iter_array(axis=1))) == want[0] and len(z.to_pairs(0)) == want[1])
+            bad = None if ok else f'{zname}: shape {z.shape}, index {len(z.index)}, columns {len(z.columns)}, blocks {z._blocks.shape}, values {z.values.shape}'
+        except Exception as e:  # noqa
+            bad = f'{zname} raised {lit.err_class(e)}'
+        yield Case('api:malformed-constructor', {'replay': zname, 'want_shape': list(want)}, py_fail=bad, tags={'stratum': 'zero-size-constructor'}, key=f'X|zero|{zname}')
+    try:
+        TypeBlocks.from_zero_size_shape((2, 3))
+        bad = 'from_zero_size_shape((2, 3)) accepted a non-empty shape'
+    except RuntimeError:
+        bad = None
+    yield Case('api:malformed-constructor', {'replay': 'TypeBlocks.from_zero_size_shape((2, 3))'}, py_fail=bad, tags={'stratum': 'malformed'}, key='X|zero|bad-shape')
+    for bname, arg in (('3-D array', np.zeros((2, 2, 2))), ('list with a 3-D array', [np.zeros((2, 2, 2))]), ('list with a non-array', [np.arange(2), [1, 2]])):
+        try:
+            TypeBlocks.from_blocks(arg)
+            bad = f'from_blocks({bname}) was accepted'
+        except Exception as e:  # noqa
+            bad = None if lit.err_class(e) == 'ErrorInitTypeBlocks' else f'from_blocks({bname}) raised {lit.err_class(e)}'
+        yield Case('api:malformed-constructor', {'replay': f'TypeBlocks.from_blocks({bname})'}, py_fail=bad, tags={'stratum': 'malformed'}, key=f'X|fb|{bname}')
     # blocks with different row counts
     for a, b_ in ((2, 3), (0, 1), (3, 0)):
         ctx.count('malformed')
@@ -1402,10 +1560,11 @@ def cases(ctx):
                 yield from layout_cases(ctx, kinds, n)
                 if ctx.tier == 'quick' or len(kinds) < 4 or n == _PAIR_ROWS.get(kinds, n):
                     yield from pair_cases(ctx, kinds, n)      # thorough, >= 4 columns: the pair space once per dtype sequence
-                yield from readers_cases(ctx, kinds, n)
-                yield from model_cases(ctx, kinds, n)
-                if len(kinds) <= 4:
-                    yield from append_cases(ctx, kinds, n)
+                if 'c' not in kinds:              # complex cells have no literal in SF.Value: no Coq-side strata for them
+                    yield from readers_cases(ctx, kinds, n)
+                    yield from model_cases(ctx, kinds, n)
+                    if len(kinds) <= 4:
+                        yield from append_cases(ctx, kinds, n)
                 yield from history_cases(ctx, kinds, n)
             yield from missing_cases(ctx)
             yield from isin_cases(ctx)
